@@ -16,14 +16,18 @@ TIERS = {
     "quick": {"runs": 30000, "budget_s": 75, "chunk": 50},
     "thorough": {"runs": 1500000, "budget_s": 1500, "chunk": 200},
 }
-RULE = ("one evaluation = one seeded 4-D dataset (non-square scan 2-5 x 2-6, non-square detector "
-        "3-9 x 3-9, strictly positive asymmetric patterns) and a history of 4-9 calls on ONE "
+RULE = ("one evaluation = one seeded 4-D dataset (non-square scan 2-5 x 2-6, occasionally up to 16x17; "
+        "detector 3-9 x 3-9, occasionally 16-65; strictly positive asymmetric patterns; float32/64 "
+        "scaled by 2^-70..2^60, uint8/uint16/int32 counts up to 3e8; C/Fortran/strided/swapped-axes "
+        "memory layout; unit or non-unit calibration) and a history of 4-9 calls on ONE "
         "CenterOfMassOriginModel (calculate_origin / fit_origin_background / shift_origin_to with "
         "batch sizes from the knob {1,2,n-1,n,n+1,divisor,non-divisor,None}, injected MemoryError "
         "after j batches followed by a retry with a smaller batch, planted plane/constant origins, "
-        "planted integer origins) plus the ptychography dataset model preprocessed with the "
+        "planted integer origins incl. values outside the detector and nearest/bicubic modes, planes "
+        "over explicit scaled/offset/jittered/permuted probe positions) plus the ptychography dataset model preprocessed with the "
         "vectorised and the looped path on the same data and ptycho_utils.fit_origin on planted "
-        "surfaces; every result is compared with a float64 NumPy reference. distinct_nontrivial = "
+        "surfaces, and detector masks (bool/float/int/hole) through _set_intensities_com on both "
+        "paths; every result is compared with a float64 NumPy reference. distinct_nontrivial = "
         "distinct (data, history) digests with >= 2 different batch sizes.")
 SCHED_MEASURE = "distinct (num patterns, batch size, fault position) schedule signatures"
 SIM_TIME_NOTE = "no clock in this engine; sim_time_s is 0"
